@@ -7,7 +7,9 @@
  *                      iv_fd_register() of it works against the real epoll
  *                      (or fails with EMFILE when the case says so);
  *   inotify_add_watch  returns the wd scripted by the case (-1 = ENOENT);
- *   inotify_rm_watch   is recorded;
+ *   inotify_rm_watch   is recorded; like the kernel it fails with EINVAL for a wd the kernel has
+ *                      already dropped, which is from the moment an IN_IGNORED record for it
+ *                      was QUEUED (the buffer being fed contains it), not from when it is read;
  *   read               on the descriptor of the instance being fed returns the
  *                      scripted results (EINTR / EAGAIN / EIO / the byte buffer
  *                      built from the case's events with the real
@@ -169,6 +171,50 @@ int __wrap_inotify_init(void)
 	return eventfd(0, EFD_NONBLOCK);
 }
 
+/* (fd, wd) pairs the "kernel" has dropped: IN_IGNORED queued and the wd not handed out again */
+#define KDEAD_MAX	4096
+static struct { int fd; int wd; } kdead[KDEAD_MAX];
+static int n_kdead;
+
+static int kdead_find(int fd, int wd)
+{
+	int i;
+
+	for (i = 0; i < n_kdead; i++)
+		if (kdead[i].fd == fd && kdead[i].wd == wd)
+			return i;
+	return -1;
+}
+
+static void kdead_mark(int fd, int wd)
+{
+	if (kdead_find(fd, wd) < 0 && n_kdead < KDEAD_MAX) {
+		kdead[n_kdead].fd = fd;
+		kdead[n_kdead].wd = wd;
+		n_kdead++;
+	}
+}
+
+static void kdead_clear(int fd, int wd)
+{
+	int i = kdead_find(fd, wd);
+
+	if (i >= 0)
+		kdead[i] = kdead[--n_kdead];
+}
+
+static void kdead_clear_fd(int fd)
+{
+	int i = 0;
+
+	while (i < n_kdead) {
+		if (kdead[i].fd == fd)
+			kdead[i] = kdead[--n_kdead];
+		else
+			i++;
+	}
+}
+
 int __wrap_inotify_add_watch(int fd, const char *pathname, uint32_t mask)
 {
 	n_add++;
@@ -179,6 +225,7 @@ int __wrap_inotify_add_watch(int fd, const char *pathname, uint32_t mask)
 		errno = ENOENT;
 		return -1;
 	}
+	kdead_clear(fd, (int)next_add_wd);
 	return (int)next_add_wd;
 }
 
@@ -187,6 +234,10 @@ int __wrap_inotify_rm_watch(int fd, int wd)
 	n_rm++;
 	rm_fd = fd;
 	rm_wd = wd;
+	if (kdead_find(fd, wd) >= 0) {
+		errno = EINVAL;
+		return -1;
+	}
 	return 0;
 }
 
@@ -225,6 +276,7 @@ int __wrap_close(int fd)
 			close_fd = fd;
 		}
 	}
+	kdead_clear_fd(fd);
 	return __real_close(fd);
 }
 
@@ -657,6 +709,19 @@ static void do_feed(char *spec)
 		cur_gone = 0;
 		ndeliv = 0;
 		feed_fd = islots[i].fd;
+		{
+			/* the kernel dropped every wd it queued an IN_IGNORED for */
+			size_t off = 0;
+
+			while (off + sizeof(struct inotify_event) <= qlen) {
+				struct inotify_event ev;
+
+				memcpy(&ev, qbuf + off, sizeof(ev));
+				if (ev.mask & IN_IGNORED)
+					kdead_mark(feed_fd, ev.wd);
+				off += sizeof(ev) + ev.len;
+			}
+		}
 		pre_pos = 0;
 		data_served = 0;
 		n_read = 0;
@@ -709,6 +774,7 @@ int main(void)
 
 		line[strcspn(line, "\n")] = 0;
 		nscripts = 0;
+		n_kdead = 0;
 		dead = 0;
 		olen = 0;
 		obuf[0] = 0;
